@@ -7,7 +7,8 @@ LEVEL = "proof"
 PROPERTIES_MODULE = "Properties.C17"
 COQ_TARGETS = ["Properties/C17.vo", "Model/FYShuffleRun.vo"]
 THEOREMS = ["C17_index_bound_binary64", "C17_index_bound_model", "C17_block_is_permutation",
-            "C17_reset_forgets", "C17_reset_as_new", "C17_new_and_reset_are_block_starts"]
+            "C17_reset_forgets", "C17_reset_as_new", "C17_new_and_reset_are_block_starts",
+            "C17_every_order_has_exactly_one_choice_vector", "C17_choice_vectors_counted", "C17_choice_is_identity_in_range"]
 # only the Flocq/Reals theorem uses the standard library's real-number axioms
 AXIOMS_ALLOWED = ["ClassicalDedekindReals.sig_forall_dec", "ClassicalDedekindReals.sig_not_dec",
                   "FunctionalExtensionality.functional_extensionality_dep", "Classical_Prop.classic"]
@@ -121,6 +122,16 @@ def search(run):
     rc, js, out, err = vlib.harness(["fy-search", "--seed", run.seed + 1, "--n", 300000], timeout=1500)
     if rc == 0 and js is not None:
         _report(run, js)
+    if run.violations:
+        return
+    # a large shuffle: every position must be reachable by the first draw (floor(xsi * m), xsi with 52 fraction bits)
+    rc, js, out, err = vlib.harness(["fy-large", "--seed", run.seed], timeout=600)
+    if rc == 0 and js is not None and js["wrong"]:
+        ex = js["examples"][0]
+        run.violation("fy-large-index", "lazy shuffle of m = 2^24: after reset the generator output %d gives the draw %d, not floor(xsi * m) = %d; "
+                      "%d of %d draws differ and %d of them are odd (about half should be): not every order can be produced" % (
+                          ex["u"], ex["draw"], ex["floor_xsi_m"], js["wrong"], js["tried"], js["odd_draws"]),
+                      {"kind": "impl-input", "input": {"m": js["m"], "generator_output": ex["u"]}, "observed": ex["draw"], "expected": ex["floor_xsi_m"]})
 
 
 def replay(path):
